@@ -801,6 +801,40 @@ def attempts_of(t):
     return out
 
 
+def must_build(scn):
+    """Ground truth from the scenario alone: the modules that every source holding them holds healthy, whose own text is
+    healthy, and whose declared dependencies (transitively) are such modules or base modules.  Whatever else happens in
+    the call, the code generator must succeed for these when it is asked.  Empty for worlds whose shape makes the
+    prediction uncertain (injected errors, I/O faults, alias spellings, several modules per file, custom templates)."""
+    if scn.get('inject') or scn.get('rate') or scn.get('faults') or scn.get('alias') or scn.get('files') or scn.get('template') or scn.get('realfs'):
+        return set()
+    srcs = scn.get('sources', ())
+    if not any(s_.get('base', 'all') == 'all' for s_ in srcs):
+        return set()
+    specs = scn.get('modules', {})
+    ok = set()
+    for m, sp in specs.items():
+        if sp.get('variant', 'ok') != 'ok' or sp.get('defval_sym'):
+            continue
+        hs_ = [s_['holds'][m] for s_ in srcs if m in s_.get('holds', {})]
+        if not hs_ or any(h.get('o', 'ok') != 'ok' or h.get('variants') or 'text' in h for h in hs_):
+            continue
+        ok.add(m)
+    changed = True
+    while changed:
+        changed = False
+        for m in sorted(ok):
+            sp = specs[m]
+            deps = set(sp.get('imports', ()))
+            for k in ('defval_dep', 'shadow_dep', 'enumuse'):
+                if sp.get(k) and (k != 'defval_dep' or sp.get('oiddefval')):
+                    deps.add(sp[k])
+            if any(d not in ok and d not in basemibs.ALL_BASE and d != m for d in deps):
+                ok.discard(m)
+                changed = True
+    return ok
+
+
 def status_digest(R):
     if R is None:
         return None
